@@ -264,7 +264,7 @@ def expr_features(src):
                 feats.add('same-prec-right-operand')
             if isinstance(n.op, ast.Pow) and isinstance(n.left, (ast.BinOp, ast.UnaryOp)):
                 feats.add('pow-left-operand')
-            if isinstance(n.op, ast.Pow) and isinstance(n.left, ast.UnaryOp) and isinstance(n.left.op, ast.USub) and \
+            if isinstance(n.op, ast.Pow) and isinstance(n.left, ast.UnaryOp) and isinstance(n.left.op, (ast.USub, ast.Invert)) and \
                     isinstance(n.left.operand, ast.Constant):
                 feats.add('neg-const-pow-base')      # "(-2) ** x": the folded literal -2 is printed without parentheses
             if isinstance(n.op, ast.Pow) and isinstance(n.right, ast.UnaryOp):
